@@ -317,8 +317,9 @@ func (ex *Exec) enterLoop(fr *Frame, lp *loopRec, reach string, st *State) (stri
 		d2.runLoopBody(f2, lp, reach, s2)
 		memo := map[string]bool{}
 		for _, w := range d2.wlog.recs {
-			if w.comp == compAlloc {
+			if w.comp == compAlloc || w.ref == "*" {
 				fullHavoc[w.comp] = true
+				freshOnly[w.comp] = false
 				continue
 			}
 			if d2.sc.dependsOnFresh(w.ref, n0, memo) {
@@ -356,6 +357,17 @@ func (ex *Exec) enterLoop(fr *Frame, lp *loopRec, reach string, st *State) (stri
 	if os.Getenv("GOVC_DEBUG") != "" && ex.record {
 		fmt.Fprintf(os.Stderr, "loop %s#%d: cells=%d comps=%v full=%v freshOnly=%v point=%v\n", shortFn(fr.fn), lp.ordinal, len(cells), sortedKeysB(compsWritten), sortedKeysB(fullHavoc), freshOnly, pointRefs)
 	}
+	// initial-heap constants first declared during discovery may be mentioned by
+	// loop-invariant reference terms: declare them in the real script as well
+	for _, d := range []*Exec{d1} {
+		for name, srt := range d.sc.decls {
+			if (strings.HasPrefix(name, "H0_") || strings.HasPrefix(name, "G_")) && srt != "fun" {
+				if _, ok := ex.sc.decls[name]; !ok {
+					ex.sc.global(name, srt)
+				}
+			}
+		}
+	}
 	lc := &loopCtx{preState: st.clone()}
 	ex.loopCtxs[loopKey{fr.id, lp.header}] = lc
 	spec := ex.eng.specs.loopSpec(shortFn(fr.fn), lp.ordinal)
@@ -384,6 +396,11 @@ func (ex *Exec) enterLoop(fr *Frame, lp *loopRec, reach string, st *State) (stri
 		nw := ex.sc.fresh("hv_"+trunc(sanitize(c), 20), srt)
 		if c == compAlloc {
 			ex.sc.assert(fmt.Sprintf("(forall ((r Int)) (! (=> (select %s r) (select %s r)) :pattern ((select %s r))))", old, nw, nw))
+			hst.heap[c] = nw
+			continue
+		}
+		if c == "envlog|len" || c == "clock" {
+			ex.sc.assert(mkCmp(">=", nw, old)) // the trace only grows, the clock only advances
 			hst.heap[c] = nw
 			continue
 		}
